@@ -546,7 +546,9 @@ func c04Gen(rt *rapid.T) c04Case {
 		}
 		return op
 	})
-	c.Ops = rapid.SliceOfN(opGen, 0, 40).Draw(rt, "ops")
+	// rapid's slices are short on average; a drawn lower bound keeps long histories frequent
+	minOps := rapid.IntRange(0, 32).Draw(rt, "minops")
+	c.Ops = rapid.SliceOfN(opGen, minOps, 40).Draw(rt, "ops")
 	return c
 }
 
